@@ -335,6 +335,10 @@ impl BootstrapCacheStore {
             self.data.peers.len(),
         );
 
+        // The merge below is only kept once it has been written: if the write fails, the in-memory state goes back
+        // to what it was (within its limits, and not merged with the file a second time by the next attempt).
+        let unmerged = self.data.clone();
+
         if let Ok(data_from_file) = Self::load_cache_data(&self.config) {
             self.data.sync(&data_from_file);
         } else {
@@ -346,9 +350,11 @@ impl BootstrapCacheStore {
             self.data.try_remove_oldest_peers(&self.config);
         }
 
-        self.write().inspect_err(|e| {
+        if let Err(e) = self.write() {
             error!("Failed to save cache to disk: {e}");
-        })?;
+            self.data = unmerged;
+            return Err(e);
+        }
 
         // Flush after writing
         self.data.peers.clear();
